@@ -9,7 +9,7 @@ from .. import session as S
 from ..encode import exact_int, EncodeError
 
 TFMIN = {'1m': 1, '3m': 3, '5m': 5, '15m': 15, '30m': 30, '45m': 45, '1h': 60, '2h': 120, '3h': 180, '4h': 240,
-         '6h': 360, '8h': 480, '12h': 720, '1D': 1440}
+         '6h': 360, '8h': 480, '12h': 720, '1D': 1440, '3D': 4320, '1W': 10080}
 class RunawayRun(RuntimeError):
     """the observed run produced an absurd number of observations / ran too long (seen with broken candle code that
     makes the simulator loop): the run is aborted, what was recorded up to then is still judged"""
@@ -18,9 +18,14 @@ class RunawayRun(RuntimeError):
 HOOKS = {'on_open_position', 'on_close_position', 'on_increased_position', 'on_reduced_position'}
 
 
+PRICE_UNIT = [1.0]        # price lattice unit of the case being run (a power of two; 0.125 for the 30000-level series)
+
+
 def enc_row(r, base):
-    """candle row -> exact integers <<minute index, o, c, h, l, v>>"""
-    return [exact_int(float(r[0]) - base, 60000.0, 'timestamp')] + [exact_int(float(x), 1.0, 'candle field') for x in r[1:6]]
+    """candle row -> exact integers <<minute index, o, c, h, l (in price units), v>>"""
+    u = PRICE_UNIT[0]
+    return [exact_int(float(r[0]) - base, 60000.0, 'timestamp')] + [exact_int(float(x), u, 'candle field') for x in r[1:5]] + \
+           [exact_int(float(r[5]), 1.0, 'volume')]
 
 
 def enc_rows(a, base):
@@ -99,6 +104,7 @@ def run_case(case):
     from jesse.modes import backtest_mode as bm
     syms = case['syms']
     W, N = case['W'], case['N']
+    PRICE_UNIT[0] = float(case.get('unit', 1.0))
     base = float(S.T0)
     ex = S.FUT
     raw = {}
@@ -106,7 +112,7 @@ def run_case(case):
         if case.get('pattern') is not None:
             raw[s] = pattern_candles(W + N, {W + int(m): f for m, f in case['pattern'].items()})
         else:
-            raw[s] = S.lattice_walk(W + N, case['seed'] * 7 + j, **case.get('gen', {}))
+            raw[s] = S.lattice_walk(W + N, case['seed'] * 7 + j, scale=PRICE_UNIT[0], **case.get('gen', {}))
     readable = []
     for s in syms:
         tfs = {'1m'} | {tf for (x, tf) in case['trading'] + case['data'] if x == s}
@@ -123,7 +129,7 @@ def run_case(case):
     stride = {}
     for (s, tf) in readable:
         T = TFMIN[tf]
-        budget = 40 if T >= 720 else (160 if T >= 120 else 0)
+        budget = 12 if T >= 4320 else (40 if T >= 720 else (160 if T >= 120 else 0))
         stride[(s, tf)] = max(1, -(-2 * nsteps // budget)) if budget else 1
     opp = {}
 
@@ -219,7 +225,7 @@ def run_case(case):
         cls = make_pattern_strategy(observe) if case.get('pattern') is not None else None
         routes = [{'symbol': s, 'timeframe': tf} for (s, tf) in case['trading']]
         data_routes = [{'symbol': s, 'timeframe': tf} for (s, tf) in case['data']]
-        cfg = S.futures_config(balance=100000, lev=2, warmup=case.get('warm_cfg', 0))
+        cfg = S.futures_config(balance=case.get('balance', 100000), lev=2, warmup=case.get('warm_cfg', 0))
         out = S.run_backtest(case.get('policy') or {}, cfg, {s: raw[s][W:].copy() for s in syms}, routes=routes,
                              data_routes=data_routes, fast=case['fast'], observe=observe, strategy_cls=cls,
                              warmup=({s: raw[s][:W].copy() for s in syms} if W else None))
@@ -247,6 +253,7 @@ def run_case(case):
     for j, s in enumerate(syms):
         st['ev'].append(dict(k='final', s=j + 1))
     hdr = dict(mode='fast' if case['fast'] else 'step', step=int(case.get('chunk', 1)), W=W, N=N, exc=exc,
+               epoch0=int(S.T0 // 60000),
                routes=['%s:%s' % r for r in case['trading']], data=['%s:%s' % r for r in case['data']],
                syms=[dict(name=s, inp=enc_rows(raw[s], base), fin=st['fin'][s]) for s in syms])
     stats = dict(fills=st['fills'], steps=st['steps'], hookreads=st['hookreads'], formingreads=st['formingreads'],
@@ -279,7 +286,7 @@ def helper_traces(rng, n_cases, first_id):
     for t in names:                       # jh.timeframe_to_one_minutes must agree too (it is what the store uses)
         if jh.timeframe_to_one_minutes(t) != utils.timeframe_to_one_minutes(t):
             ev[0]['utils'][names.index(t)] = int(jh.timeframe_to_one_minutes(t))
-    traces.append(dict(id=tid, hdr=dict(mode='helper', step=1, W=0, N=0, exc='none', syms=[]), ev=ev))
+    traces.append(dict(id=tid, hdr=dict(mode='helper', step=1, W=0, N=0, exc='none', epoch0=0, syms=[]), ev=ev))
     for c in range(n_cases):
         tid += 1
         tf = rng.choice(['3m', '5m', '15m', '30m', '45m', '1h', '2h', '4h'] if c % 3 else ['3m', '5m', '15m'])
@@ -312,7 +319,7 @@ def helper_traces(rng, n_cases, first_id):
                     e['ok'] = False
                     e['exc'] = type(ex_).__name__
                 ev.append(e)
-        traces.append(dict(id=tid, hdr=dict(mode='helper', step=1, W=0, N=0, exc='none', syms=[]), ev=ev))
+        traces.append(dict(id=tid, hdr=dict(mode='helper', step=1, W=0, N=0, exc='none', epoch0=0, syms=[]), ev=ev))
     return traces
 
 
@@ -341,5 +348,5 @@ def rerun_helper_event(e):
         except Exception as ex_:
             ev['ok'] = False
             ev['exc'] = type(ex_).__name__
-    return dict(id=1, hdr=dict(mode='helper', step=1, W=0, N=0, exc='none', syms=[]), ev=[ev],
+    return dict(id=1, hdr=dict(mode='helper', step=1, W=0, N=0, exc='none', epoch0=0, syms=[]), ev=[ev],
                 stats=dict(fills=0, steps=0, hookreads=0, formingreads=0, fill_minutes=[], reads=0))
